@@ -208,7 +208,6 @@ fn run_declared(plan: &Value, rec: &mut Rec) {
     rec.count(&format!("fault:F-declare:{}:{}", jstr(plan, "form"), jstr(plan, "supply")));
     rec.sample(json!({"tag": tag, "declared": declared, "supplied": len, "form": jstr(plan, "form"), "supply": jstr(plan, "supply")}));
     let m = measured(0, || parse_everything(&bytes, &sched, 8192));
-    rec.count_n("probe:peak-bytes-sum", m.acct.peak);
     judge(rec, plan, plan.clone(), "declared-packet-length", &format!("tag {tag} announcing {declared} octets over {len} supplied"), len, 0, &m);
 }
 
@@ -564,7 +563,6 @@ fn run_stream_build(plan: &Value, rec: &mut Rec) {
             rec.count("skip:stream-build-rejected");
         }
     }
-    rec.count_n("probe:peak-bytes-sum", m.acct.peak);
     // a stream needs constant memory: bound independent of size (A * delivered would hide leaks, so check the absolute peak)
     match &m.out {
         Err(p) => rec.violation("panic", &norm_loc(&p.loc), format!("building a {size}-byte stream panicked: {}", p.msg), plan.clone()),
